@@ -70,6 +70,10 @@ def check(run):
     R.rule('C03.closeaccepted', 'every accepted close() writes its Close frame: a rejected close() (oversize reason) leaves the '
                                 'state alone, so the next, valid, close() is not taken for a repeat; CLOSE has one producer', 4)
     C08.onlyclose(R, RID='C03.closeaccepted')
+    from . import C11 as _C11
+    with R.as_rule('C03.once'):
+        _C11.locked(R)           # the one complete frame is not cut by a concurrent shutdown / write (lock sections)
+        _C11.once(R)             # send() writes it at once (not queued for a later flush that may be refused)
 
 
 def send_sites(R, g):
